@@ -1,0 +1,7 @@
+//go:build !verif
+
+package bqueue
+
+// DefaultCacheSize is the default number of Queueable elements above the current height
+// which are stored in the queue.
+const DefaultCacheSize = 2000
